@@ -140,6 +140,64 @@ theorem C10_eoeor_partial (env : Env) (hooks : List Hook) (f r1 r2 : Bool) (n : 
   · exact absurd hok hne
   · exact h
 
+/-- FULL-STRENGTH "the end stamps are set however the run ends" (kept visible; FALSE of the code):
+    whenever a request takes an environment out of RUNNING (the run variables being there, as they are
+    after every START_ACTIVITY), run_end_time_ms and run_end_completion_time_ms are both set afterwards. -/
+def C10_end_stamps_full : Prop :=
+  ∀ (env : Env) (hooks : List Hook) (q : Req) (n : Nat),
+    env.st = .RUNNING → env.vars.soeor ≠ .absent → env.vars.eoeor ≠ .absent →
+    (step hooks n env q).1.st ≠ .RUNNING →
+    (step hooks n env q).1.vars.soeor.isVal = true ∧ (step hooks n env q).1.vars.eoeor.isVal = true
+
+/-- The known finding `run_end_missing_after_forced_error`, machine-checked on the model: a STOP_ACTIVITY
+    requested through the API is cancelled by a critical leave_RUNNING hook; the glue's GO_ERROR is cancelled
+    by the same hook; the glue then writes the state with `Sm.SetState("ERROR")` — no callback runs, so
+    run_end_completion_time_ms is never written (and no end-of-run event is published): the run has left
+    RUNNING with a start, an end time (from before_STOP_ACTIVITY) and no end-completion time. -/
+theorem C10_finding_run_end_missing_after_forced_error : ¬ C10_end_stamps_full := by
+  intro h
+  have := h { st := .RUNNING, rn := 1, counter := 1, clock := 2,
+              vars := { rnVar := some 1, sosor := .val 1, eosor := .val 2, soeor := .empty, eoeor := .empty } }
+            [{ id := 0, isTask := false, critical := true, trig := .leave .RUNNING, tw := 0, await := .leave .RUNNING, aw := 0,
+               outcomes := [true, true] }]
+            (.control .STOP_ACTIVITY true false) 0 rfl (by decide) (by decide) (by decide)
+  revert this; decide
+
+/-- What IS proved: however the run ends — STOP_ACTIVITY or GO_ERROR through TryTransition (stop, error), a
+    teardown while RUNNING, an API request whose failure is followed by a GO_ERROR that goes through — both
+    end stamps are set once the environment has left RUNNING, for all hooks, outcomes and environments.
+    Excluded (spelled out as `forcedByGlue`): an API request after which the glue had to force the state. -/
+theorem C10_end_stamps_partial (env : Env) (hooks : List Hook) (q : Req) (n : Nat)
+    (hrun : env.st = .RUNNING) (hs : env.vars.soeor ≠ .absent) (he : env.vars.eoeor ≠ .absent)
+    (hyp : match q with | .control e b r => forcedByGlue env hooks e b r = false | _ => True)
+    (hleft : (step hooks n env q).1.st ≠ .RUNNING) :
+    (step hooks n env q).1.vars.soeor.isVal = true ∧ (step hooks n env q).1.vars.eoeor.isVal = true := by
+  cases q with
+  | try_ e b r => exact fsmEvent_end_stamps env hooks e b r hrun hs he hleft
+  | control e b r =>
+    simp only [step] at hleft ⊢
+    split at hleft
+    · exact absurd hrun hleft
+    · rename_i hg
+      rw [if_neg hg]
+      exact controlApi_end_stamps env hooks e b r hrun hs he hyp hleft
+  | teardown f r1 r2 =>
+    simp only [step] at hleft ⊢
+    split at hleft
+    · exact absurd hrun hleft
+    · rename_i hg
+      rw [if_neg hg]
+      exact teardown_end_stamps env hooks f r1 r2 n hrun hs he hleft
+
+/-- Non-vacuity of the partial theorem's hypothesis: a failed STOP through the API whose GO_ERROR goes
+    through is not forced, and both end stamps are set. -/
+example :
+    let env : Env := { st := .RUNNING, rn := 1, counter := 1, clock := 2,
+                       vars := { rnVar := some 1, sosor := .val 1, eosor := .val 2, soeor := .empty, eoeor := .empty } }
+    forcedByGlue env [] .STOP_ACTIVITY false false = false ∧
+    (step [] 0 env (.control .STOP_ACTIVITY false false)).1.vars.eoeor = .val 4 ∧
+    (step [] 0 env (.control .STOP_ACTIVITY false false)).1.st = .ERROR := by decide
+
 /-- Non-vacuity / end-to-end: a full START…STOP cycle with hooks on a fresh environment hands
     out number 1, stamps SOSOR < EOSOR < SOEOR < EOEOR and retires the number. -/
 example :
